@@ -179,4 +179,237 @@ theorem real_unlink_list {s s' : Store} {x : Nat} :
           intro ⟨_, h⟩; exact (hpa' k h).2.1 hk
         simp [h1, h2, h3, h4]
 
+theorem prevAt_ne_next {x : Nat} : ∀ {L : Forest} {prev : Option Nat} {j : Nat}, idx? x L = some j → (ids L).Nodup →
+    (∀ k, prev = some k → k ∉ ids L) →
+    ∀ k, prevAt prev L j = some k → headId (L.drop (j + 1)) ≠ some k
+  | [], _, _, hj, _, _, _, _ => by simp at hj
+  | (.node i n v cs) :: ts, prev, j, hj, hnd, hpv, k, hk => by
+    rw [idx?_cons] at hj
+    rw [ids_cons, List.nodup_cons, List.mem_append, List.nodup_append] at hnd
+    obtain ⟨hni, ndcs, ndts, disj⟩ := hnd
+    by_cases hix : i = x
+    · subst hix
+      simp at hj; subst hj
+      simp [prevAt] at hk
+      intro h
+      have := hpv k hk
+      simp at this
+      exact this.2.2 (headId_mem (by simpa using h))
+    · simp [hix] at hj
+      obtain ⟨j', hj', rfl⟩ := hj
+      rw [prevAt_succ] at hk
+      simp only [List.drop_succ_cons]
+      exact prevAt_ne_next hj' ndts (by intro k hk; simp [Tree.id] at hk; subst hk; exact fun h => hni (Or.inr h)) k hk
+
+theorem getElem?_of_idx? {p : Nat} : ∀ {L : Forest} {j : Nat}, idx? p L = some j → ∃ t, L[j]? = some t ∧ t.id = p
+  | [], _, hj => by simp at hj
+  | (.node i n v cs) :: ts, j, hj => by
+    rw [idx?_cons] at hj
+    by_cases hix : i = p
+    · subst hix; simp at hj; subst hj; exact ⟨.node i n v cs, by simp, rfl⟩
+    · simp [hix] at hj
+      obtain ⟨j', hj', rfl⟩ := hj
+      simpa using getElem?_of_idx? hj'
+
+/-- `mpt_node_unlink(x)` for a node with siblings or a parent: `x` (with everything below it) leaves its
+    sibling list and becomes a top-level list of its own; the returned pointer is the old successor -/
+theorem unlink_refines {s : Store} {x j : Nat} {l0 L : Forest} {rest : List Forest} {par : Option Nat} {t : Tree}
+    (hR : Realises s (l0 :: rest)) (hat : SibsAt x l0 L j par) (ht : L[j]? = some t)
+    (hne : applyAt par (fun L => L.eraseIdx j) l0 ≠ []) :
+    ∃ s', s.unlink x = .ok (s', headId (L.drop (j + 1))) ∧
+      Realises s' ([t] :: applyAt par (fun L => L.eraseIdx j) l0 :: rest) := by
+  have hl0 := hR.real l0 (by simp)
+  have hnd := hR.nodup
+  simp only [List.flatMap_cons] at hnd
+  have hnd0 : (ids l0).Nodup := (List.nodup_append.1 hnd).1
+  have hLr := hat.real hl0.2
+  have hLnd := hat.nodup hnd0
+  have hidx := hat.idx
+  have hxL : x ∈ ids L := idx?_mem hidx
+  have hLsub := hat.subset
+  have hparL : ∀ q, par = some q → q ∉ ids L ∧ q ∈ ids l0 := hat.par_not_mem hnd0
+  obtain ⟨xcs, xn, xv, hxrec⟩ := Real.rec_at' hLr hidx
+  have hnxtL : ∀ q, headId (L.drop (j + 1)) = some q → q ∈ ids L :=
+    fun q hq => ids_drop_subset L _ q (headId_mem hq)
+  obtain ⟨s', hs', hfreed, hlen, heff⟩ := Store.unlink_ok (s := s) (c := x) ⟨hxrec, rfl⟩
+    (by
+      intro q hq
+      obtain ⟨qn, hqn⟩ := Real.live hLr q (hnxtL q hq)
+      refine ⟨qn, hqn, ?_⟩
+      rintro rfl
+      exact idx?_not_mem_drop hidx hLnd (headId_mem hq))
+    (by
+      intro q hq
+      have hqL : q ∈ ids L := prevAt_mem hq
+      obtain ⟨qn, hqn⟩ := Real.live hLr q hqL
+      refine ⟨qn, hqn, ?_, ?_⟩
+      · rintro rfl; exact prevAt_ne hidx hLnd (by simp) hq
+      · exact fun h => prevAt_ne_next hidx hLnd (by simp) q hq h.symm)
+    (by
+      intro _ r hr
+      obtain ⟨hrL, hrl0⟩ := hparL r hr
+      obtain ⟨rn, hrn⟩ := Real.live hl0.2 r hrl0
+      refine ⟨rn, hrn, by rintro rfl; exact hrL hxL, ?_⟩
+      exact fun h => hrL (hnxtL r h.symm))
+  refine ⟨s', hs', ?_⟩
+  have hUE : UnlinkEff s s' x (headId (L.drop (j + 1))) (prevAt none L j) par := by
+    intro i
+    rw [heff i]
+    by_cases h1 : i = x
+    · subst h1; simp [hxrec]
+    · simp [h1]
+  obtain ⟨hloc, hT⟩ := real_unlink_list (t := t) hLr hidx ht hLnd (by simp) (fun k hk => (hparL k hk).1) hUE
+  have hpvL : ∀ i, some i = prevAt none L j → i ∈ ids L := fun i h => prevAt_mem h.symm
+  have hLne : L ≠ [] := by intro h; simp [h] at hidx
+  have hunch : ∀ i, i ∉ ids L → some i ≠ par → s'.nodes[i]? = s.nodes[i]? := by
+    intro i h2 h3
+    rw [hUE i]
+    have h1 : i ≠ x := by rintro rfl; exact h2 hxL
+    have h4 : some i ≠ headId (L.drop (j + 1)) := fun h => h2 (hnxtL i h.symm)
+    have h5 : some i ≠ prevAt none L j := fun h => h2 (hpvL i h)
+    have h6 : ¬ (prevAt none L j = none ∧ some i = par) := fun ⟨_, h⟩ => h3 h
+    simp [h1, h4, h5, h6]
+  refine hR.of_sameLife ⟨hfreed, ?_⟩ ?_ ?_
+  · intro i
+    rw [hUE i]
+    cases hsi : s.nodes[i]? <;> (repeat' split) <;> simp
+  · intro l' hl'
+    simp only [List.mem_cons] at hl'
+    rcases hl' with rfl | rfl | hl'
+    · exact ⟨by simp, hT⟩
+    · refine ⟨hne, ?_⟩
+      refine hat.lift hl0.2 hnd0 hloc ?_ ?_
+      · intro q hq
+        obtain ⟨hqL, hql0⟩ := hparL q hq
+        obtain ⟨qn, hqn, hqc⟩ := hat.par_rec hl0.2 q hq
+        rw [hUE q]
+        have h1 : q ≠ x := by rintro rfl; exact hqL hxL
+        have h2 : some q ≠ headId (L.drop (j + 1)) := fun h => hqL (hnxtL q h.symm)
+        have h3 : some q ≠ prevAt none L j := fun h => hqL (hpvL q h)
+        simp only [h1, h2, h3, ↓reduceIte]
+        cases j with
+        | zero =>
+          simp [prevAt, hq]
+        | succ j' =>
+          have h4 : ¬ (prevAt none L (j' + 1) = none ∧ some q = par) := by
+            intro ⟨h, _⟩
+            unfold prevAt at h
+            simp at h
+            have hlt := idx?_lt hidx
+            cases hd : L.drop j' with
+            | nil =>
+              have := congrArg List.length hd
+              simp at this
+              omega
+            | cons a as => cases a; simp [hd] at h
+          rw [if_neg h4, hqn, headId_eraseIdx_succ L j' hLne]
+          simp [← hqc]
+      · intro i hi hip hiL
+        exact hunch i hiL hip
+    · have hr := hR.real l' (by simp [hl'])
+      refine ⟨hr.1, Real.frame hr.2 (fun i hi => ?_)⟩
+      have hirest : i ∈ rest.flatMap ids := List.mem_flatMap.2 ⟨l', hl', hi⟩
+      have h3 := (List.nodup_append.1 hnd).2.2
+      refine hunch i ?_ ?_
+      · intro h; exact h3 i (hLsub i h) i hirest rfl
+      · intro h
+        obtain ⟨_, hq⟩ := hparL i h.symm
+        exact h3 i hq i hirest rfl
+  · simp only [List.flatMap_cons]
+    obtain ⟨A, B, h1, h2⟩ := hat.ids_split hnd0
+    rw [h1, h2]
+    have hp := ids_eraseIdx_perm L j ht
+    have : (ids [t] ++ (A ++ ids (L.eraseIdx j) ++ B)).Perm (A ++ ids L ++ B) := by
+      have h3 : (A ++ ids L ++ B).Perm (A ++ (ids [t] ++ ids (L.eraseIdx j)) ++ B) :=
+        List.Perm.append_right _ (List.Perm.append_left _ hp)
+      refine List.Perm.trans ?_ h3.symm
+      have := @List.perm_append_comm _ (ids [t]) A
+      have h4 := List.Perm.append_right (ids (L.eraseIdx j) ++ B) this
+      simpa [List.append_assoc] using h4
+    have h5 := List.Perm.append_right (rest.flatMap ids) this
+    simpa [List.append_assoc] using h5
+
+
+/-- the link invariants of the property text, about one live record -/
+structure LinksAt (s : Store) (i : Nat) (n : Node) : Prop where
+  /-- forward and backward links agree; siblings name the same parent -/
+  next_prev : ∀ j, n.next = some j → ∃ m, s.Live j m ∧ m.prev = some i ∧ m.parent = n.parent
+  prev_next : ∀ j, n.prev = some j → ∃ m, s.Live j m ∧ m.next = some i
+  /-- the first-child link leads to a node that names this node as parent and has no predecessor -/
+  child_parent : ∀ c, n.children = some c → ∃ m, s.Live c m ∧ m.parent = some i ∧ m.prev = none
+  /-- the parent is alive, has children, and its first-child link is the head of this sibling list -/
+  parent_head : ∀ p, n.parent = some p → ∃ m, s.Live p m ∧ m.children.isSome ∧ (n.prev = none → m.children = some i)
+
+theorem Real.links {s : Store} : ∀ {l : Forest} {par prev : Option Nat},
+    Real s par prev l →
+    (∀ k, prev = some k → ∃ m, s.Live k m ∧ m.next = headId l) →
+    (∀ q, par = some q → ∃ m, s.Live q m ∧ m.children.isSome ∧ (prev = none → m.children = headId l)) →
+    ∀ i ∈ ids l, ∃ n, s.Live i n ∧ LinksAt s i n
+  | [], _, _, _, _, _, i, hi => by simp at hi
+  | (.node j nm v cs) :: ts, par, prev, hL, hpv, hpa, i, hi => by
+    rw [Real_cons] at hL
+    have hlive : s.Live j (recOf (headId ts) prev par cs nm v) := ⟨hL.1, rfl⟩
+    simp at hi
+    rcases hi with rfl | hi | hi
+    · refine ⟨_, hlive, ?_, ?_, ?_, ?_⟩
+      · intro k hk
+        simp at hk
+        cases ts with
+        | nil => simp at hk
+        | cons t ts' =>
+          cases t with
+          | node k' n' v' cs' =>
+            simp at hk; subst hk
+            have := hL.2.2
+            rw [Real_cons] at this
+            exact ⟨_, ⟨this.1, rfl⟩, rfl, rfl⟩
+      · intro k hk
+        simp at hk
+        obtain ⟨m, hm, hn⟩ := hpv k hk
+        exact ⟨m, hm, by simpa using hn⟩
+      · intro c hc
+        simp at hc
+        cases cs with
+        | nil => simp at hc
+        | cons t cs' =>
+          cases t with
+          | node k' n' v' cs'' =>
+            simp at hc; subst hc
+            have := hL.2.1
+            rw [Real_cons] at this
+            exact ⟨_, ⟨this.1, rfl⟩, rfl, rfl⟩
+      · intro p hp
+        simp at hp
+        obtain ⟨m, hm, hc, hh⟩ := hpa p hp
+        exact ⟨m, hm, hc, by intro h; simp at h; simpa using hh h⟩
+    · refine Real.links hL.2.1 (by simp) ?_ i hi
+      intro q hq
+      simp at hq; subst hq
+      refine ⟨_, hlive, ?_, fun _ => rfl⟩
+      cases cs with
+      | nil => simp at hi
+      | cons t cs' => cases t; simp
+    · refine Real.links hL.2.2 ?_ ?_ i hi
+      · intro k hk
+        simp at hk; subst hk
+        exact ⟨_, hlive, rfl⟩
+      · intro q hq
+        obtain ⟨m, hm, hc, _⟩ := hpa q hq
+        exact ⟨m, hm, hc, by simp⟩
+
+/-- on a well-formed store every live record satisfies the link invariants -/
+theorem Realises.links {s : Store} {tops : List Forest} (h : Realises s tops) :
+    ∀ i n, s.Live i n → LinksAt s i n := by
+  intro i n hl
+  have hi := h.cover i n hl.1 hl.2
+  obtain ⟨l, hlt, hil⟩ := List.mem_flatMap.1 hi
+  obtain ⟨n', hn', hlk⟩ := Real.links (h.real l hlt).2 (by simp) (by simp) i hil
+  have : n' = n := by
+    have := hn'.1
+    rw [hl.1] at this
+    exact (Option.some.inj this).symm
+  subst this
+  exact hlk
+
+
 end Mpt.Nodes
